@@ -538,6 +538,11 @@ def _run0(c):
                 res.setdefault('mutations', []).append({'step': 2, 'wavefront': 1, 'what': d})
             w2 = w3
         res.update(result_of(w2))
+        if c['dir'] in ('pupil', 'image') and isinstance(c.get('mask'), list) and isinstance(c['mask'][0][0], list) \
+                and len(c['mask']) > 1:
+            # the same plane with its segments listed in the opposite order: the order of the fields must not matter
+            wr = build_wavefront(lentil, dict(c, mask=c['mask'][::-1]))
+            res['field_rev'] = clist(do_call(lentil, wr, c['call']).field)
     except Exception as e:
         res['err'] = type(e).__name__
     d = changed(w, snap)
@@ -924,6 +929,10 @@ def oracle(c, impl):
     msg = arr_close(np.asarray(impl['intensity']), np.abs(np.array(exp)) ** 2, unit=U * U)
     if msg:
         return 'Wavefront.intensity is not |field|^2 of the Fraunhofer sum: ' + msg
+    if 'field_rev' in impl:
+        msg = arr_close(cx(impl['field_rev']), exp, unit=U)
+        if msg:
+            return 'with the segments of the plane listed in the opposite order Wavefront.field is no longer the Fraunhofer sum: ' + msg
     o = impl['out']
     if o['shape'] != [S_[0] * os_, S_[1] * os_]:
         return f'output shape {o["shape"]} is not shape*oversample'
